@@ -30,7 +30,8 @@ EXTENDS TorsionLattice, TLC
 
 CONSTANTS R,          \* lattice radius
           P2Origin,   \* TRUE: p2 fixed at the origin
-          Impl,       \* "tertiary" | "v2"
+          Impl,       \* "tertiary" | "v2" | "oracle" (no implementation steps: only the lemmas about
+                      \*  the declarative oracle are evaluated, once per input tuple)
           M1Order,    \* "n1_x_b2" (as implemented in v2) | "b2_x_n1" (required)
           Slice       \* TRUE: only the tuples with p1 = (1,0,0) (fast what-if / negative-control runs)
 
